@@ -259,7 +259,8 @@ prop('C19', units=['clients', 'add', 'sub', 'mul', 'derived', 'prim_add', 'prim_
 prop('C20', units=['config', 'context', 'round', 'div', 'fmt', 'roots', 'inverse'], level='proof',
      level_text=('The build-time constants are replaced by uninterpreted symbols (rewrite R9: the include!(OUT_DIR/...) items must be present), so every '
                  'proof holds for all configurations at once: Context::default() == (cfg precision, cfg mode), RoundingMode::default() == cfg mode, '
-                 'round(n) == with_scale_round(n, cfg mode), the four Div impls pass cfg precision to impl_division; sqrt() / cbrt() / inverse() are their _with_context forms at Context::default(); the integer zero padding of the formatter gives up exactly '
+                 'round(n) == with_scale_round(n, cfg mode), the four Div impls pass cfg precision to impl_division; sqrt() / cbrt() / inverse() are their _with_context forms at Context::default(); Display (values and references) picks the exponential / dotless / full-scale routine '
+                 'exactly by the configured leading- and trailing-zero thresholds and never switches when a precision is requested (the three routines themselves are uninterpreted); the integer zero padding of the formatter gives up exactly '
                  'beyond cfg max integer padding (counting the requested fraction zeros and the point); a consumer hard-coding 100 or HalfEven or 1000 '
                  'cannot be proved equal to an arbitrary symbol'),
      level_note=_NOTE_COMMON + ' build.rs itself (a separate program that formats env strings) is assumed to emit what it parsed; exp is excluded (C13); sqrt/cbrt/inverse/Display default-context forms are added as their units are built.',
@@ -273,7 +274,8 @@ prop('C16', units=['fmt', 'insig', 'round', 'config'], level='proof',
                  'round_mag(value, dropped digits) (or the value padded with zeros when nothing is dropped): format_ascii_digits_no_integer (rounding point left of, at, or inside the stored '
                  'digits, all-nines carry to 1.000 included), format_ascii_digits_with_integer_and_fraction (carry into the integer digits included) and '
                  'zero_right_pad_integer_ascii_digits (exponent folded into zeros exactly when within the configured padding limit, else nothing changes). The same oracle round_mag decides '
-                 'with_scale_round (C06), which is the agreement the property demands. NOT decided: format_full_scale itself and the exponential forms (String / fmt::Formatter / write! are '
+                 'with_scale_round (C06), which is the agreement the property demands. Also proved: the Display dispatcher dynamically_format_decimal (which of the three routines runs, as a function of digit count, scale, requested precision and the thresholds). '
+                 'NOT decided: format_full_scale itself and the exponential forms (String / fmt::Formatter / write! are '
                  'interleaved with the digit logic and cannot be brought under a Verus contract), and flag handling (delegated to std pad_integral)'),
      level_note=_NOTE_COMMON + ' Vec helpers fill_slice(&mut v[..n]) and copy_within(..a, i) are replaced by shim helpers with assumed contracts (R6).',
      technique=_TECH)
